@@ -349,7 +349,9 @@ pub fn load(config: &Config) -> Result<Context> {
         match try_load_currency(&config.currency, &mut ctx, &search_path) {
             Ok(()) => (),
             Err(err) => {
-                println!("{:?}", err.wrap_err("Failed to load currency data"));
+                // Not on stdout: in the sandboxed child that is the pipe the
+                // replies to the parent travel on.
+                eprintln!("{:?}", err.wrap_err("Failed to load currency data"));
             }
         }
     }
@@ -452,8 +454,9 @@ fn cached(
     };
 
     if let Ok(file) = File::open(&path) {
-        // Indicate error even though we're returning success.
-        println!(
+        // Indicate error even though we're returning success. (On stderr,
+        // stdout carries the replies of the sandboxed child.)
+        eprintln!(
             "{:?}",
             Report::wrap_err(
                 err,
